@@ -74,11 +74,13 @@ def gen_layout(seed, idx):
     return {"rows": rows, "cuts": cuts, "compressor": rng.choice(COMP), "seed": rng.randint(0, 10 ** 6)}
 
 
-def spec_for(lay, rechunk_on_load=False, src_rows=2):
+def spec_for(lay, rechunk_on_load=False, src_rows=2, takes_chunk_i=False):
     src = {"name": "ev", "kind": "ev", "rows": lay["rows"], "cuts": lay["cuts"], "compressor": lay["compressor"],
            "rechunk_on_save": False}
     r1 = {"name": "r1", "type": "row", "deps": ["ev"], "field": "v1", "rechunk_on_save": False,
           "compressor": lay["compressor"]}
+    if takes_chunk_i:
+        r1["takes_chunk_i"] = True
     if rechunk_on_load:
         src["rechunk_on_load"] = True
         src["chunk_source_size_mb"] = (src_rows * 24 + 12) / 1e6
@@ -159,7 +161,8 @@ def run_case(case):
     root = hrun.mktemp("c16-")
     d1, d2 = os.path.join(root, "a"), os.path.join(root, "b")
     try:
-        spec = spec_for(lay, rechunk_on_load=op["name"] == "rechunk_on_load", src_rows=op.get("src_rows", 2))
+        spec = spec_for(lay, rechunk_on_load=op["name"] == "rechunk_on_load", src_rows=op.get("src_rows", 2),
+                        takes_chunk_i=bool(op.get("takes_chunk_i")))
         out = oracle.whole_run(spec)
         cfg1 = {"processor": "single_thread", "max_messages": 30, "timeout": 60}
         st = hrun.make_context(spec, d1, cfg1)
@@ -304,7 +307,7 @@ def gen_cases(seed, lo, hi, tier):
         if parts is not None:
             chosen = parts if not q else rng.sample(parts, min(2, len(parts)))
             for g in chosen:
-                ops.append({"name": "per_chunk", "groups": g, "rechunk": rng.random() < 0.5})
+                ops.append({"name": "per_chunk", "groups": g, "rechunk": rng.random() < 0.5, "takes_chunk_i": rng.random() < 0.5})
         for k in range(4 if q else 8):
             ops.append({"name": "rechunker", "compressor": rng.choice(COMP + (None,)), "rechunk": rng.random() < 0.5,
                         "target_rows": rng.choice([None, 1, 3, 100]), "replace": rng.random() < 0.4,
